@@ -1,4 +1,5 @@
 import Jp.Lemmas.Valid
+import Jp.Lemmas.C13Helpers
 /-
   C13 — Prefix, suffix and intersection work on whole tokens and agree with each other.
   Token lists are compared *encoded*; decoding is injective on valid tokens (C03), so every statement
@@ -11,170 +12,6 @@ open Jp Jp.Spec
 -- startsWith_iff stripPrefix_iff stripPrefix_concat endsWith_iff stripSuffix_iff stripSuffix_root
 -- intersection_lcp intersection_prefix_both intersection_comm intersection_idem intersection_root
 -- concat_tokens concat_assoc concat_root startsWith_no_panic foo_not_prefix_of_foobar
-
-/-! ## helper lemmas -/
-
-theorem stripPrefix_eq_some (s p r : Bytes) : stripPrefix s p = some r ↔ s = p ++ r := by
-  induction p generalizing s with
-  | nil => cases s <;> simp [stripPrefix, eq_comm]
-  | cons c p ih =>
-    cases s with
-    | nil => simp [stripPrefix]
-    | cons b s =>
-      simp only [stripPrefix]
-      split
-      · rename_i h; subst h; simp [ih]
-      · rename_i h; simp [h]
-
-theorem stripSuffix_eq_some (s p r : Bytes) : stripSuffix s p = some r ↔ s = r ++ p := by
-  simp only [stripSuffix, Option.map_eq_some_iff, stripPrefix_eq_some]
-  constructor
-  · rintro ⟨a, ha, rfl⟩
-    have := congrArg List.reverse ha
-    simpa using this
-  · intro h
-    exact ⟨r.reverse, by simp [h], by simp⟩
-
-theorem startsWith_iff_ex (s p : Bytes) : startsWith s p = true ↔ ∃ r, s = p ++ r := by
-  simp only [startsWith, Option.isSome_iff_exists, stripPrefix_eq_some]
-
-theorem endsWith_iff_ex (s p : Bytes) : endsWith s p = true ↔ ∃ r, s = r ++ p := by
-  simp only [endsWith, Option.isSome_iff_exists, stripSuffix_eq_some]
-
-theorem tokens_nil : tokens [] = [] := by simp [tokens, splitOn]
-
-/-- key (1) -/
-theorem tokens_append_right (q r : Bytes) (hq : q = [] ∨ q.head? = some 47)
-    (hr : r = [] ∨ r.head? = some 47) : tokens (q ++ r) = tokens q ++ tokens r := by
-  have e : q ++ r = ofToks (tokens q ++ tokens r) := by
-    rw [ofToks_append, ofToks_tokens q hq, ofToks_tokens r hr]
-  rw [e, tokens_ofToks]
-  intro t ht
-  rcases List.mem_append.mp ht with h | h
-  · exact tokens_all_noSlash q t h
-  · exact tokens_all_noSlash r t h
-
-theorem shape_of_append_left (x q p : Bytes) (h : p = x ++ q) (hp : p = [] ∨ p.head? = some 47) :
-    x = [] ∨ x.head? = some 47 := by
-  cases x with
-  | nil => simp
-  | cons b x => subst h; simpa using hp
-
-/-- a shaped text whose tokens are all valid is a valid pointer -/
-theorem validPtr_of_tokens (r : Bytes) (hr : r = [] ∨ r.head? = some 47)
-    (h : ∀ t ∈ tokens r, validTok t = true) : validPtr r = true := by
-  rw [← ofToks_tokens r hr]; exact validPtr_ofToks _ h
-
-theorem eq_of_tokens (p q r : Bytes) (hp : validPtr p = true) (hq : validPtr q = true)
-    (hr : validPtr r = true) (h : tokens p = tokens q ++ tokens r) : p = q ++ r := by
-  rw [← ofToks_tokens p (validPtr_shape hp), h, ofToks_append,
-    ofToks_tokens q (validPtr_shape hq), ofToks_tokens r (validPtr_shape hr)]
-
-theorem shape_iff (r : Bytes) : (r.isEmpty || r.head? == some 47) = true ↔ (r = [] ∨ r.head? = some 47) := by
-  cases r <;> simp
-
-theorem ptrStripPrefix_eq_some (p q r : Bytes) :
-    ptrStripPrefix p q = some r ↔ (p = q ++ r ∧ (r = [] ∨ r.head? = some 47)) := by
-  unfold ptrStripPrefix
-  split
-  · rename_i s hs
-    rw [stripPrefix_eq_some] at hs
-    subst hs
-    split
-    · rename_i h
-      rw [shape_iff] at h
-      constructor
-      · intro e; simp at e; subst e; exact ⟨rfl, h⟩
-      · rintro ⟨e, _⟩; simp at e; simp [e]
-    · rename_i h
-      rw [shape_iff] at h
-      constructor
-      · intro e; simp at e
-      · rintro ⟨e, h'⟩; simp at e; subst e; exact absurd h' h
-  · rename_i hs
-    constructor
-    · intro e; simp at e
-    · rintro ⟨e, _⟩
-      rw [(stripPrefix_eq_some p q r).mpr e] at hs; simp at hs
-
-/-! ### intersection -/
-
-theorem lcp_nil_right (ps : List Bytes) : lcp ps [] = [] := by cases ps <;> simp [lcp]
-
-theorem lcp_nil_left (qs : List Bytes) : lcp [] qs = [] := by simp [lcp]
-
-theorem lcp_eq_take (ps qs : List Bytes) : lcp ps qs = ps.take (lcp ps qs).length := by
-  induction ps generalizing qs with
-  | nil => simp [lcp]
-  | cons a as ih =>
-    cases qs with
-    | nil => simp [lcp]
-    | cons b bs =>
-      simp only [lcp]
-      split
-      · simp only [List.length_cons, List.take_succ_cons]; rw [← ih bs]
-      · simp
-
-theorem lcp_prefix_left (ps qs : List Bytes) : lcp ps qs <+: ps := by
-  rw [lcp_eq_take]; exact List.take_prefix _ _
-
-theorem lcp_comm (ps qs : List Bytes) : lcp ps qs = lcp qs ps := by
-  induction ps generalizing qs with
-  | nil => simp [lcp_nil_right, lcp_nil_left]
-  | cons a as ih =>
-    cases qs with
-    | nil => simp [lcp]
-    | cons b bs =>
-      simp only [lcp]
-      by_cases h : a = b
-      · subst h; simp [ih bs]
-      · have h' : ¬ b = a := fun e => h e.symm
-        simp [h, h']
-
-theorem lcp_self (ps : List Bytes) : lcp ps ps = ps := by
-  induction ps with
-  | nil => simp [lcp]
-  | cons a as ih => simp [lcp, ih]
-
-theorem lcp_length_le (ps qs : List Bytes) : (lcp ps qs).length ≤ ps.length :=
-  (lcp_prefix_left ps qs).length_le
-
-theorem intersectionLoop_eq (ps qs : List Bytes) (idx : Nat) :
-    intersectionLoop ps qs idx = idx + off ps (lcp ps qs).length := by
-  induction ps generalizing qs idx with
-  | nil => simp [intersectionLoop, lcp, off]
-  | cons a as ih =>
-    cases qs with
-    | nil => simp [intersectionLoop, lcp, off]
-    | cons b bs =>
-      simp only [intersectionLoop, lcp]
-      by_cases h : a = b
-      · subst h
-        simp only [ne_eq, not_true_eq_false, if_false, if_true, List.length_cons, off_succ]
-        rw [ih]; omega
-      · simp [h, off]
-
-theorem splitAt_off (ps : List Bytes) (k : Nat) (hk : k ≤ ps.length) :
-    (∃ tl, splitAt (ofToks ps) (off ps k) = some (ofToks (ps.take k), tl)) ∨
-    (splitAt (ofToks ps) (off ps k) = none ∧ ofToks ps = ofToks (ps.take k)) := by
-  rcases Nat.lt_or_ge k ps.length with hlt | hge
-  · left
-    have hb : (ofToks ps)[off ps k]? = some 47 := by
-      have : (ofToks ps)[off ps k]? = ((ofToks ps).drop (off ps k))[0]? := by simp
-      rw [this, drop_off]
-      have : ps.drop k ≠ [] := by
-        intro e; have := congrArg List.length e; simp at this; omega
-      have := ofToks_head _ this
-      simpa [List.head?_eq_getElem?] using this
-    refine ⟨(ofToks ps).drop (off ps k), ?_⟩
-    simp only [splitAt, hb, ne_eq, not_true_eq_false, if_false]
-    rw [take_off ps k]
-  · right
-    have hk' : k = ps.length := by omega
-    subst hk'
-    have hb : (ofToks ps)[off ps ps.length]? = none := by
-      rw [← ofToks_length]; simp
-    simp [splitAt, hb]
 
 /-! ## the obligations -/
 
